@@ -368,7 +368,8 @@ func (c *Ctx) backlogThenRegister() {
 		if !ok {
 			return
 		}
-		e, ok := ir.Strip(ia.X).(*ssa.Extract)
+		// (also when the backlog travels in a small struct this function builds itself)
+		e, ok := ir.Strip(ir.ValueAt(ia.X, in.Block())).(*ssa.Extract)
 		if ok && e.Index == 0 && valIsCallTo(since)(e.Tuple) {
 			// the loop that delivers (a loop that only inspects the backlog
 			// beforehand delivers nothing, and need not)
